@@ -75,7 +75,8 @@ class Entropy(object):
         self.buffers[actor] = buf[n:]
         return buf[:n]
 
-    lazy_init_stream = False     # C19: entropy drawn while a curve is being loaded comes from its own stream
+    lazy_init_stream = False     # C19: entropy drawn while shared data is initialised lazily (a curve being loaded, the public
+    #                              point of a shared key) comes from its own stream: which thread gets there first is the schedule's choice
 
     def _in_lazy_init(self):
         f = sys._getframe(2)
@@ -84,6 +85,8 @@ class Entropy(object):
             co = f.f_code
             if co.co_name == "load" and co.co_filename.endswith("_point.py"):
                 return True
+            if co.co_name == "pointQ" and co.co_filename.endswith("ECC.py"):
+                return True          # the lazily computed public point of a key shared between threads (blinding entropy)
             f = f.f_back
             depth += 1
         return False
